@@ -415,7 +415,7 @@ def checkpoint(archive, how):
     return pickle.loads(pickle.dumps(archive))
 
 
-def sprinkle(rng, case, rows_fn=None, p_ckpt=0.3, p_bad=0.25, prox_noobj_ok=False):
+def sprinkle(rng, case, rows_fn=None, p_ckpt=0.3, p_bad=0.35, prox_noobj_ok=False):
     """With some probability: checkpoints (continue on a pickled / deep-copied archive) and rejected calls (fault
     injection, judged by the oracles of the property the run serves: what the archive holds and reports AFTER a
     correctly rejected call must still satisfy it) at random positions of a generated history."""
@@ -426,8 +426,17 @@ def sprinkle(rng, case, rows_fn=None, p_ckpt=0.3, p_bad=0.25, prox_noobj_ok=Fals
     if rows_fn is not None and rng.random() < p_bad and ops:
         import faultlib
         for _ in range(rng.choice([1, 1, 2])):
-            ops.insert(rng.randint(0, max(0, len(ops) - 1)),
-                       faultlib.gen_fault(rng, case.get("layout", ""), rows_fn, prox_noobj_ok=prox_noobj_ok))
+            fault = faultlib.gen_fault(rng, case.get("layout", ""), rows_fn, prox_noobj_ok=prox_noobj_ok)
+            if case.get("layout", "") and rng.random() < 0.7:
+                # mostly the calls that are rejected LATE (a malformed extra field through add / add_single: shape,
+                # dtype and convertibility of a field are only known to the store)
+                want_obj = ("o" in case["layout"] or "t" in case["layout"]) and rng.random() < 0.6
+                for _try in range(200):
+                    if fault["entry"] in ("add", "add_single") and fault["arg"] == "extra" and (
+                            not want_obj or fault["kind"] in ("objseq", "ragged")):
+                        break
+                    fault = faultlib.gen_fault(rng, case.get("layout", ""), rows_fn, prox_noobj_ok=prox_noobj_ok)
+            ops.insert(rng.randint(0, max(0, len(ops) - 1)), fault)
     return case
 
 
